@@ -248,6 +248,14 @@ def norm_cond(c):
         return c, pol
 
 
+def strict_lt(atom, pol):
+    """Canonical form of an ordering test on totally ordered values (integers, counts):
+    `a <= b` == not (b < a).  Not valid for floats that may be NaN."""
+    if atom[0] == "cmp" and atom[1] == "<=":
+        return ("cmp", "<", atom[3], atom[2]), not pol
+    return atom, pol
+
+
 def guard_leaves(t, strip_wrappers: bool = True, _conds=()):
     """Leaves of a value written with conditional expressions (after helper inlining:
     early returns): yields (conditions, leaf) with conditions a tuple of (atom, polarity);
@@ -295,3 +303,70 @@ def cond_value(conds, atom):
         if a == atom:
             return p
     return None
+
+
+def _enclosing_conds(ctx, f, stmt_or_expr):
+    """Conditions of the enclosing `if` statements / conditional expressions of a node, innermost last."""
+    from .model import parent
+
+    out = []
+    child, cur = stmt_or_expr, parent(stmt_or_expr)
+    while cur is not None and cur is not f.node:
+        if isinstance(cur, ast.If) and child is not cur.test:
+            pol = any(child is s for s in cur.body)
+            a, p = norm_cond(ctx.X.value_at(f, cur.test))
+            out.append((a, p if pol else not p))
+        elif isinstance(cur, ast.IfExp) and child is not cur.test:
+            a, p = norm_cond(ctx.X.value_at(f, cur.test))
+            out.append((a, p if child is cur.body else not p))
+        elif isinstance(cur, (ast.FunctionDef, ast.AsyncFunctionDef, ast.Lambda, ast.ClassDef)):
+            break
+        child, cur = cur, parent(cur)
+    out.reverse()
+    return tuple(out)
+
+
+def gated_values(ctx, f, expr: ast.AST, _depth: int = 0, _seen=None):
+    """[(conditions, leaf term)] for the value of ``expr``: local variables are followed to
+    their definitions (each with the conditions of its enclosing if statements), conditional
+    expressions are split, transparent helpers are looked into (their early returns become
+    conditions).  The three spellings `if c: v = A else: v = B`, `v = A if c else B` and
+    `v = helper(...)` give the same leaves."""
+    X = ctx.X
+    _seen = _seen or set()
+    out = []
+    if isinstance(expr, ast.Name) and _depth < 6:
+        df = X.df(f)
+        node = X.node_of(f, expr)
+        if expr.id in df.locals and node is not None:
+            defs = df.reaching(node, expr.id)
+            simple = [d for d in defs if d.kind == "assign" and not d.path and d.value is not None and d.node is not None]
+            if defs and len(simple) == len(defs):
+                for d in sorted(simple, key=lambda d: d.id):
+                    if d.id in _seen:
+                        continue
+                    conds = _enclosing_conds(ctx, f, d.node.stmt if getattr(d.node, "stmt", None) is not None else d.value)
+                    for c2, leaf in gated_values(ctx, f, d.value, _depth + 1, _seen | {d.id}):
+                        out.append((conds + c2, leaf))
+                return _feasible(out)
+    if isinstance(expr, ast.IfExp):
+        a, p = norm_cond(X.value_at(f, expr.test))
+        for branch, pol in ((expr.body, p), (expr.orelse, not p)):
+            for c2, leaf in gated_values(ctx, f, branch, _depth + 1, _seen):
+                out.append((((a, pol),) + c2, leaf))
+        return _feasible(out)
+    t = X.force_inline(X.value_at(f, expr), f)
+    return _feasible(list(guard_leaves(t, strip_wrappers=False)))
+
+
+def _feasible(items):
+    out = []
+    for conds, leaf in items:
+        d = {}
+        ok = True
+        for a, p in conds:
+            if d.setdefault(a, p) != p:
+                ok = False
+        if ok:
+            out.append((conds, leaf))
+    return out
